@@ -12,7 +12,7 @@ import os
 
 from rtc import taglib as T
 from rtc import defects
-from rtc.gen import make_rgfa, gaf_record, write_lines, canonical_ranges, colon_contigs
+from rtc.gen import make_rgfa, gaf_record, write_lines, canonical_ranges, colon_contigs, rename_ids
 
 
 def unchanged_problem(before, after):
@@ -119,6 +119,8 @@ def evaluate(ctx, section, case, gkey, d):
 # ---- generation ---------------------------------------------------------------------------------------------
 def make_graph(rng):
     g = _make_graph(rng)
+    if rng.random() < 0.2:
+        g = rename_ids(g, rng.choice(["dash", "dot", "hash"]))  # segment names with punctuation (after seeded change C01-5)
     return colon_contigs(g) if rng.random() < 0.2 else g  # contig names containing ':' (F18)
 
 
@@ -181,6 +183,16 @@ def run(ctx):
             evaluate(ctx, "round-trip", {"gfa": gfa, "gaf": lines, "bgzf": fi % 7 == 3}, gkey, d)
         if ctx.out_of_time(60 if q else 700):
             break
+    # files of more than 1000 / 2000 records: anything that buffers, chunks or looks ahead over the record stream shows only at this size
+    # (added after seeded change C02-6; C01-6 needed more than 10)
+    for n_rec, bg in ((1001, False), (2503, True)) if q else ((1001, False), (2503, True), (1000, True), (5001, False)):
+        g = make_graph(rng)
+        gfa = g.lines()
+        cands = [(w, s, e) for w in g.walks(3) for (s, e) in canonical_ranges(g, w)]
+        chunk = [rng.choice(cands) for _ in range(n_rec)]
+        lines = [record(rng, g, w, s, e, i) for i, (w, s, e) in enumerate(chunk)]
+        evaluate(ctx, "large-file", {"gfa": gfa, "gaf": lines, "bgzf": bg}, tuple(l for l in gfa if l[0] == "S"), d)
+    ctx.bound("large files: %s records (walks of <= 3 steps drawn with repetition), same round trips" % ("1001 and 2503" if q else "1000, 1001, 2503 and 5001"))
     return ("each case = one canonical '+' unstable record (graph, walk, start, end, with/without CIGAR) inside a file of 1-50 records, taken "
             "through unstable->stable->unstable->stable by the real CLI code; the stable image of every record is counted as a case of the "
             "stable->unstable->stable direction; identity oracle on fields / bytes; distinct = distinct (graph, path, start, end, cg presence)")
